@@ -18,7 +18,7 @@
    decompresses under [e]. *)
 From Coq Require Import String.
 From Coq Require Import List NArith Bool Arith Ascii.
-From Martian.C11 Require Import Model Proofs_Base Proofs_Loop Proofs.
+From Martian.C11 Require Import Model Proofs_Base Proofs_Loop Proofs Proofs_Audit.
 Import ListNotations.
 
 (* For ALL message lists and ALL partitions: the processor is shown exactly
@@ -250,27 +250,202 @@ Proof. eexists. eexists. vm_compute. auto. Qed.
    both directions, an empty response message followed by trailers *)
 Example C11_ops_example :
   let h (n v : string) := (list_ascii_of_string n, list_ascii_of_string v) in
+  let hc := [h "content-type" "application/grpc"; h "grpc-encoding" "gzip"]%string in
+  let hs := [h "content-type" "application/grpc"]%string in
+  let ht := [h "grpc-status" "0"]%string in
   run_ops id_decomp id_comp repaired pair0
-    [OpHeader CtoS [h "content-type" "application/grpc"; h "grpc-encoding" "gzip"]%string false;
-     OpHeader StoC [h "content-type" "application/grpc"]%string false;
+    [OpHeader CtoS hc false; OpHeader StoC hs false;
      OpData StoC [zero; zero; zero; zero; zero] false;
-     OpHeader StoC [h "grpc-status" "0"]%string true]
-  = Some [[PHeader CtoS false; SHeader CtoS false]; [PHeader StoC false; SHeader StoC false];
+     OpHeader StoC ht true]
+  = Some [[PHeader CtoS hc false; SHeader CtoS hc false]; [PHeader StoC hs false; SHeader StoC hs false];
           [PMsg StoC (Some []) false; SData StoC [zero; zero; zero; zero; zero] false];
-          [PHeader StoC true; SHeader StoC true]].
+          [PHeader StoC ht true; SHeader StoC ht true]].
 Proof. vm_compute. reflexivity. Qed.
 
 (* a gRPC stream then a non-gRPC stream from the same factory, interleaved:
    the second one's DATA reaches its sink untouched *)
 Example C11_session_example :
   let h (n v : string) := (list_ascii_of_string n, list_ascii_of_string v) in
+  let hg := [h "content-type" "application/grpc"]%string in
+  let hj := [h "content-type" "application/json"]%string in
   run_session id_decomp id_comp repaired sess0
-    [(0, OpHeader CtoS [h "content-type" "application/grpc"]%string false);
-     (1, OpHeader CtoS [h "content-type" "application/json"]%string false);
+    [(0, OpHeader CtoS hg false);
+     (1, OpHeader CtoS hj false);
      (0, OpData CtoS [zero; zero; zero] false);
      (1, OpData CtoS ["{"; "}"]%char true);
      (0, OpData CtoS [zero; zero] true)]
-  = Some [(0, [PHeader CtoS false; SHeader CtoS false]); (1, [SHeader CtoS false]);
+  = Some [(0, [PHeader CtoS hg false; SHeader CtoS hg false]); (1, [SHeader CtoS hj false]);
           (0, []); (1, [SData CtoS ["{"; "}"]%char true]);
           (0, [PMsg CtoS (Some []) true; SData CtoS [zero; zero; zero; zero; zero] true])].
 Proof. vm_compute. reflexivity. Qed.
+
+(* ------------------------------------------------------------------ *)
+(* Theorem audit: every boolean the driver evaluates, as a proposition  *)
+(* ------------------------------------------------------------------ *)
+
+(* clause ids proc_messages / proc_eos / sink_eos / sink_xxx : the four
+   conjuncts of [c11_ok], each equivalent to its clause *)
+Theorem C11_oracle_proc_messages : forall decomp e ms calls,
+  proc_msgs_ok decomp e ms calls = true <-> map (decode decomp e) ms = map Some (shown calls).
+Proof. exact proc_msgs_ok_iff. Qed.
+Print Assumptions C11_oracle_proc_messages.
+
+Theorem C11_oracle_proc_eos : forall esl (calls : list (option bytes * bool)),
+  proc_eos_ok esl calls = true <-> eos_once_last esl (map snd calls).
+Proof. exact proc_eos_ok_iff. Qed.
+Print Assumptions C11_oracle_proc_eos.
+
+Theorem C11_oracle_sink_eos : forall esl (datas : list (bytes * bool)),
+  sink_eos_ok esl datas = true <-> eos_once_last esl (map snd datas).
+Proof. exact sink_eos_ok_iff. Qed.
+Print Assumptions C11_oracle_sink_eos.
+
+Theorem C11_oracle_sink_messages : forall decomp e ms datas,
+  sink_msgs_ok decomp e ms datas = true <->
+  exists ms', sink_bytes datas = wire ms' /\
+              Forall (fun m => len32 (mpayload m) = true) ms' /\
+              Forall2 (same_msg_prop decomp e) ms ms'.
+Proof. exact sink_msgs_ok_iff. Qed.
+Print Assumptions C11_oracle_sink_messages.
+
+(* the finer diagnoses: what each says, and that each is a failure of the
+   sink clause (clause ids sink_parse, sink_extra_message, sink_lost_message,
+   sink_flags; sink_container is the remaining way [sink_msgs_ok] fails) *)
+Theorem C11_diagnosis_sink_parse : forall decomp e ms datas,
+  sink_msg_count datas = None ->
+  sink_msgs_ok decomp e ms datas = false /\
+  ~ exists ms', sink_bytes datas = wire ms' /\ Forall (fun m => len32 (mpayload m) = true) ms'.
+Proof.
+  intros decomp e ms datas H. split; [now apply sink_parse_fail_fails|now apply sink_parse_fail].
+Qed.
+Print Assumptions C11_diagnosis_sink_parse.
+
+Theorem C11_diagnosis_sink_count : forall decomp e ms datas k,
+  sink_msg_count datas = Some k -> k <> length ms ->
+  sink_msgs_ok decomp e ms datas = false /\
+  exists ms', sink_bytes datas = wire ms' /\ Forall (fun m => len32 (mpayload m) = true) ms' /\ length ms' = k.
+Proof.
+  intros decomp e ms datas k H Hne. split; [now apply (sink_count_mismatch_fails decomp e ms datas k)|].
+  now apply sink_msg_count_iff.
+Qed.
+Print Assumptions C11_diagnosis_sink_count.
+
+Theorem C11_diagnosis_sink_flags : forall decomp e ms datas,
+  sink_flags_lens_ok ms datas = false -> sink_msgs_ok decomp e ms datas = false.
+Proof. exact sink_flags_fail_fails. Qed.
+Print Assumptions C11_diagnosis_sink_flags.
+
+(* clause id non_grpc_untouched *)
+Theorem C11_oracle_untouched : forall frames calls datas,
+  untouched_ok frames calls datas = true <-> calls = [] /\ datas = frames.
+Proof. exact untouched_ok_iff. Qed.
+Print Assumptions C11_oracle_untouched.
+
+(* the hypotheses of the property exactly as the driver decides them are
+   sufficient for the model to pass the oracle: a PROPFAIL is never caused by
+   an unmet hypothesis *)
+Theorem C11_checked_hypotheses_suffice :
+  forall decomp comp e ms (fs : list (bytes * bool)),
+    (forall e' b, decomp e' (comp e' b) = Some b) ->
+    is_partition ms fs = true -> es_only_last fs = true ->
+    decodable decomp e ms = true -> lens_ok decomp comp e ms = true ->
+    exists s' evs,
+      run_frames decomp repaired e st0 fs = Done s' evs /\
+      c11_ok decomp e ms (last_es fs) (calls_of evs) (datas_of comp repaired e evs) = true.
+Proof. exact checked_hypotheses_suffice. Qed.
+Print Assumptions C11_checked_hypotheses_suffice.
+
+(* clause ids grpc_detection / encoding_selection: the rules pinned by hand
+   ([std_is_grpc], [std_enc_of_name]) are exactly what the tables regenerated
+   from the source compute; unknown encodings are errors *)
+Theorem C11_detection_is_exact_content_type : forall hs, is_grpc hs = std_is_grpc hs.
+Proof. exact is_grpc_std. Qed.
+Print Assumptions C11_detection_is_exact_content_type.
+
+Theorem C11_encoding_table_is_standard :
+  (forall v, enc_of_name v = std_enc_of_name v) /\ default_enc = Identity.
+Proof. split; [exact enc_of_name_std|exact default_enc_identity]. Qed.
+Print Assumptions C11_encoding_table_is_standard.
+
+Theorem C11_encoding_selection : forall hs e,
+  select_enc default_enc hs = Some e ->
+  match announced None hs with
+  | None => e = Identity
+  | Some v => std_enc_of_name v = Some e
+  end.
+Proof. exact encoding_selection_standard. Qed.
+Print Assumptions C11_encoding_selection.
+
+Theorem C11_unknown_encoding_rejected : forall hs cur,
+  select_enc cur hs = None <->
+  exists v, In v (map snd (filter (fun h => bytes_eqb (fst h) (list_ascii_of_string "grpc-encoding"%string)) hs))
+            /\ std_enc_of_name v = None.
+Proof. exact unknown_encoding_rejected. Qed.
+Print Assumptions C11_unknown_encoding_rejected.
+
+(* "same wire format and encoding": HEADERS (grpc-encoding included) reach the
+   processor and the sink with exactly the fields received, gRPC or not *)
+Theorem C11_headers_forwarded_verbatim : forall decomp comp v p d hs es p' out c,
+  op_step decomp comp v p (OpHeader d hs es) = Some (p', out, c) ->
+  out = [OErr ErrEncoding] \/ out = [PHeader d hs es; SHeader d hs es] \/ out = [SHeader d hs es].
+Proof. exact header_forwarded. Qed.
+Print Assumptions C11_headers_forwarded_verbatim.
+
+(* The property at the level of the HEADERS/DATA scripts the driver runs
+   against the implementation: either direction [d] of a gRPC stream with a
+   fresh adapter, whatever encoding was selected. *)
+Theorem C11_ops_level : forall decomp comp p d ms ds dl esl,
+  (forall e' b, decomp e' (comp e' b) = Some b) ->
+  enabled p = true -> get_ad d p = st0 ->
+  wf decomp (get_enc d p) ms -> lens_fit decomp comp (get_enc d p) ms ->
+  concat ds ++ dl = wire ms ->
+  exists outs evs,
+    run_ops decomp comp repaired p (data_ops d (frames_of ds dl esl)) = Some outs /\
+    concat outs = through comp repaired d (get_enc d p) evs /\
+    c11_ok decomp (get_enc d p) ms esl (calls_of evs) (datas_of comp repaired (get_enc d p) evs) = true.
+Proof. exact ops_level. Qed.
+Print Assumptions C11_ops_level.
+
+(* non-vacuity of the audit theorems' hypotheses *)
+Example C11_checked_hypotheses_example :
+  let fs := [([zero; zero], false); ([zero; zero; "002"; "A"; "B"; one; zero]%char, false);
+             ([zero; zero; zero], true)] in
+  let ms := [mkMsg false ["A"; "B"]%char; mkMsg true []] in
+  is_partition ms fs = true /\ es_only_last fs = true /\ last_es fs = true /\
+  decodable id_decomp Identity ms = true /\ lens_ok id_decomp id_comp Identity ms = true.
+Proof. vm_compute. auto. Qed.
+
+Example C11_ops_level_example :
+  let h (n v : string) := (list_ascii_of_string n, list_ascii_of_string v) in
+  exists p, pair_after id_decomp id_comp repaired pair0
+              [OpHeader CtoS [h "content-type" "application/grpc"; h "grpc-encoding" "deflate"]%string false;
+               OpHeader StoC [h "content-type" "application/grpc"; h "grpc-encoding" "snappy"]%string false] = Some p /\
+            enabled p = true /\ get_ad StoC p = st0 /\ get_enc StoC p = Snappy /\ get_enc CtoS p = Deflate.
+Proof. eexists. vm_compute. auto. Qed.
+
+Example C11_non_grpc_example :
+  let h (n v : string) := (list_ascii_of_string n, list_ascii_of_string v) in
+  forallb (fun o => negb (header_is_grpc o))
+    [OpHeader CtoS [h "content-type" "application/grpc+proto"]%string false; OpData CtoS [zero] true;
+     OpHeader StoC [h "content-type" "application/json"]%string false; OpData StoC [] true] = true.
+Proof. vm_compute. reflexivity. Qed.
+
+Example C11_encoding_examples :
+  let h (n v : string) := (list_ascii_of_string n, list_ascii_of_string v) in
+  select_enc default_enc [h "grpc-encoding" "gzip"; h "te" "trailers"; h "grpc-encoding" "snappy"]%string = Some Snappy /\
+  select_enc default_enc [h "grpc-encoding" "br"]%string = None /\
+  select_enc default_enc [h "te" "trailers"]%string = Some Identity.
+Proof. vm_compute. auto. Qed.
+
+(* totalisation audit (see notes): the fallback arm of the loop is dead, and
+   the payload slice is always exact *)
+Theorem C11_loop_fallback_arm_dead : forall (b : bytes),
+  Nat.ltb (length b) 5 = false -> exists c l1 l2 l3 l4 rest, b = c :: l1 :: l2 :: l3 :: l4 :: rest.
+Proof. exact (@five_shape ascii). Qed.
+Print Assumptions C11_loop_fallback_arm_dead.
+
+Theorem C11_payload_slice_exact : forall (b : bytes) (n : N),
+  N.ltb (N.of_nat (length b)) n = false ->
+  length (firstn (N.to_nat n) b) = N.to_nat n /\ firstn (N.to_nat n) b ++ skipn (N.to_nat n) b = b.
+Proof. exact payload_split_exact. Qed.
+Print Assumptions C11_payload_slice_exact.
